@@ -1045,6 +1045,20 @@ def _unpadded(fi, val):
     holds before an optional trailing padding: the name has exactly one
     reaching definition that is not of the form `name = <pad of name>`, and
     every padding definition pads the value of that one.  None otherwise."""
+    e = peel(fi, val)
+    if isinstance(e, ast.Call):
+        # return np.concatenate([<formula>, <filler>]) / np.append(<formula>, <filler>) / np.pad(<formula>, (0, k))
+        cn = call_name(e)
+        first = None
+        if cn in ('np.concatenate', 'np.hstack') and e.args and isinstance(e.args[0], (ast.List, ast.Tuple)) and len(e.args[0].elts) == 2:
+            first = e.args[0].elts[0]
+        elif cn in ('np.append', 'np.pad') and len(e.args) >= 2:
+            first = e.args[0]
+            if cn == 'np.pad' and not (isinstance(e.args[1], (ast.Tuple, ast.List)) and len(e.args[1].elts) == 2 and const_value(e.args[1].elts[0]) == 0):
+                first = None
+        if first is not None:
+            return (fi.stmt(e) or fi.stmt(val)), first
+        return None
     if not isinstance(val, ast.Name):
         return None
     ds = defs_of(fi, val)
@@ -1104,7 +1118,8 @@ def d5_length(ck):
                     if v is not None:
                         cands.append(v)
         for v in cands:
-            if any(isinstance(c, ast.Call) and call_name(c) in _PADDERS for c in walk_expr(v)) and ntm in fi.derives_from(v)[0]:
+            if any(isinstance(c, ast.Call) and call_name(c) in _PADDERS for c in walk_expr(v)) and \
+                    (ntm in names_loaded(fi.expand(v)) or ntm in fi.derives_from(v)[0]):
                 normalised = v
     compared = None
     for a in fi.cfg.nodes:
